@@ -500,7 +500,7 @@ def r13l(ck, fb):
         return
     fc = Taint(b, place_src=lambda p: pl_fields(p)[-1:] == ['from_cluster'])
     me = Taint(b, place_src=lambda p: pl_fields(p)[-1:] == ['node_id'])
-    gates = [i for i, blk in enumerate(b.blocks) if blk['t']['k'] == 'switch' and fc.op_tainted(blk['t']['discr']) and me.op_tainted(blk['t']['discr'])]
+    gates = [i for i, blk in enumerate(b.blocks) if i in cfg.live_blocks(b) and blk['t']['k'] == 'switch' and fc.op_tainted(blk['t']['discr']) and me.op_tainted(blk['t']['discr'])]
     nxt = [x.bb for x in b.calls(r'Iterator>::next$')]
     for s0 in ups:
         ok = False
